@@ -57,10 +57,25 @@ DATA_VALUES = (Sx((1, 2)), Sx((1, 300)), Sx((1.5,)), Sx(('a',)), Sx((None,)),
                Sx((-1,)),(), (0,), (127,), (128,), (-1,), [1, 2], b'\x01',
                bytearray(b'\x7f'), range(3), Gen((5, 6)), Gen((5, 200)), 'ab',
                5, None, (1.0,), ('1',), [None], 3, 0, True, [[1]], b'\x80',
-               (2 ** 64,), (0, 1, 2, 3, 4, 5, 6, 7, 127))
+               (2 ** 64,), (0, 1, 2, 3, 4, 5, 6, 7, 127),
+)
+# sizes where bulk validators switch in (tried from the initial state only)
+DATA_VALUES_BIG = (tuple([5] * 255), tuple([5] * 256), tuple([5] * 300),
+                   tuple([5] * 255 + [200]), tuple([5] * 299 + [128]),
+                   tuple([127] * 5000), tuple([1] * 4999 + [255]),
+                   bytes([5] * 1000 + [0x80]), [5] * 4096 + [-1],
+                   tuple([3] * 8 + [0x80] * 0), tuple([3] * 15 + [0x80]),
+                   tuple([3] * 23 + [200]), tuple([3] * 7 + [128]),
+                   tuple([3] * 31 + [255]), tuple([3] * 63 + [128]),
+                   tuple([3] * 64), tuple([3] * 127 + [128]))
+
+
+BIG_OK = [False]
 
 
 def values_for(name):
+    if name == 'data' and BIG_OK[0]:
+        return DATA_VALUES + DATA_VALUES_BIG
     if name == 'time':
         return TIME_VALUES
     if name == 'data':
@@ -176,6 +191,13 @@ def make_search(mido, type_, acc):
         raise AssertionError(op)
 
     def ops(s, hist):
+        BIG_OK[0] = (len(hist) == 0)
+        try:
+            return _ops(s, hist)
+        finally:
+            BIG_OK[0] = False
+
+    def _ops(s, hist):
         out = []
         for name in set_names:
             vals = values_for(name) if name in own else (0, 1)
@@ -183,7 +205,7 @@ def make_search(mido, type_, acc):
                 out.append(('set', name, v))
             out.append(('del', name))
         if type_ == 'sysex':
-            for v in DATA_VALUES:
+            for v in values_for('data'):
                 out.append(('iadd', v))
         for name in own + [foreign, 'nosuch', '_foo', 'skip_checks']:
             vals = values_for(name) if name in own else (0,)
